@@ -65,6 +65,11 @@ def make(cfg_in):
                  r_out_attrs=list(ro) if ro is not None else None,
                  l_out_prefix=cfg['l_out_prefix'], r_out_prefix=cfg['r_out_prefix'],
                  tok_return_set=tok_mode)
+        if entry == 'filter_tables' and cfg['filter'] != 'OverlapFilter':
+            s['out_sim_score'] = False
+            s['comp_op'] = '>='
+        if entry == 'overlap_join' or cfg['filter'] == 'OverlapFilter':
+            s['allow_empty'] = False
         if callable(s['threshold']):
             s['threshold'] = s['threshold'](c)
         s['L'] = scenario.table_dict(Lt)
@@ -98,7 +103,10 @@ def make(cfg_in):
             raise Violation(msg, detail('C15', 'returns-frame', msg))
         res = oracle.Result.of(out)
         w = scenario.SymWorld()
-        viols = oracle.check_join_output(s, w, res)
+        if entry == 'overlap_join' or cfg['filter'] == 'OverlapFilter':
+            viols = oracle.check_overlap_filter_tables(s, w, res)
+        else:
+            viols = oracle.check_join_output(s, w, res)
         if tok.get_return_set() != tok_mode:
             viols.append(('C12', 'tokenizer-restored', 'tokenizer return_set is %r after the call, '
                           'was %r' % (tok.get_return_set(), tok_mode)))
@@ -112,16 +120,16 @@ def make(cfg_in):
         tags = ['rows=%d' % len(res.rows)]
         if cfg['validate_every'] and _COUNTER[0] % cfg['validate_every'] == 0:
             m = c.get_model()
-            cs = scenario.concretize_scenario(s, m)
-            got = [tuple(model_value(m, x) for x in r) for r in res.rows]
+            cs = scenario.concretize_scenario(s, m, extra=[list(r) for r in res.rows])
+            got = [tuple(r) for r in cs.pop('_extra')]
             validate_against_real(cs, res.columns, got)
             tags.append('validated')
         sample = None
         if _COUNTER[0] <= 3:
             m = c.get_model()
-            sample = {'scenario': _brief(scenario.concretize_scenario(s, m)),
-                      'output_rows': [list(map(_js, (model_value(m, x) for x in r)))
-                                      for r in res.rows]}
+            cs = scenario.concretize_scenario(s, m, extra=[list(r) for r in res.rows])
+            sample = {'output_rows': [list(map(_js, r)) for r in cs.pop('_extra')],
+                      'scenario': _brief(cs)}
         return {'nontrivial': len(res.rows) > 0, 'tags': tags, 'sample': sample}
 
     return h
